@@ -640,12 +640,36 @@ def thread_affinity(chk, found):
         chk.ok(rule, "<runners>", "all %d mutations of asyncio futures / events / the task registry happen in functions whose only execution context is the loop thread" % n)
 
 
+def strong_registry(chk, found):
+    """O1.11: asyncio keeps only weak references to tasks; the runner's registry must be what keeps payload tasks alive"""
+    prog = chk.program
+    rule = "O1.11"
+    for q, (cls, _m) in found.items():
+        reg = common.runner_facts(prog, cls).get("task_registry")
+        if not reg:
+            continue
+        for n in cls.fields.get(reg, []):
+            v = getattr(n, "value", None)
+            if v is None:
+                continue
+            chk.count()
+            txt = util.unparse(v)
+            r = prog.resolve(cls.module, v.func) if isinstance(v, ast.Call) else None
+            if (r or "").startswith("ext:weakref.") or "Weak" in txt:
+                chk.bad(rule, cls.qual, "the task registry self.%s is a %s: nothing holds a running payload task strongly, a garbage collection can destroy it while it waits (the payload silently stops, or the runtime fails on a valid configuration)" % (reg, txt), node=n, stmt="weak-registry")
+            elif txt in ("set()", "[]", "list()", "{}", "dict()"):
+                chk.ok(rule, cls.qual, "payload tasks are held by the strong container self.%s = %s" % (reg, txt), node=n)
+            else:
+                chk.undecided(rule, cls.qual, "task registry container %s not recognised" % txt, node=n, aux=True)
+
+
 def run(chk):
     chk.facts.update({k: v for k, v in libfacts.cross_read().items() if "trio" in k or "asyncio" in k})
     found = chk.guard("O1.1", "<runners>", monitors_and_outcomes, chk) or {}
     chk.guard("O1.3", "<runners>", propagation_to_run, chk, found)
     chk.guard("O1.5", META, meta_chain, chk)
     chk.guard("O1.9", "<runners>", thread_affinity, chk, found)
+    chk.guard("O1.11", "<runners>", strong_registry, chk, found)
     from . import c02
 
     chk.guard("O1.10", META, c02.mapping_cleared, chk, "O1.10")
